@@ -226,6 +226,19 @@ def fam_names(seed=0):
             nodes = {f"n{i}": NodeSpec(['o1'], _node_overrides(fp, ops, ['o1'])) for i in range(2)}
             edges = [EdgeSpec(f"n{s}/o1/{names['x']}", f"n{t}/o1/{names[tv_]}", fp()) for (s, t, tv_) in es]
             out.append((f"F4:{pi}:{es}", ModelSpec('m', ops, nodes, edges, note=f"identifier pool {names}")))
+    # two operators on ONE node: the second has a variable of the first's name (renamed k -> k_v1 internally) AND a user
+    # variable that is literally called like that generated name; both occur in one product / sum
+    for variant in range(2):
+        fp = FP()
+        o_a = OpSpec('oa', [('x', 'de', X.mul(X.neg(V('k')), V('x')))], {'x': ('state', fp()), 'k': ('const', fp())}, output='x')
+        e = X.add(X.sub(X.mul(V('k'), V('k_v1')), V('z')), X.add(V('k'), V('k_v1'))) if variant == 0 else \
+            X.sub(X.mul(V('k_v1'), X.call('tanh', X.mul(V('k'), V('z')))), X.div(V('z'), V('k_v1')))
+        o_b = OpSpec('ob', [('z', 'de', e)], {'z': ('state', fp()), 'k': ('const', fp()), 'k_v1': ('const', fp())}, output='z')
+        ops = {'oa': o_a, 'ob': o_b}
+        for order in (['oa', 'ob'], ['ob', 'oa']):
+            nodes = {'n0': NodeSpec(order, _node_overrides(fp, ops, order))}
+            out.append((f"F4:renamed-next-to-lookalike:{variant}:{order[0]}", ModelSpec('m', ops, nodes, [],
+                                                                                      note="k of a second operator next to a user k_v1")))
     return out
 
 
